@@ -41,11 +41,11 @@ func lifeRunMain(args []string) int {
 	enc := json.NewEncoder(w)
 	rd := rand.New(rand.NewSource(*seed))
 	n := 0
-	for v := 0; v < 4; v++ {
+	for v := 0; v < 4 && !xHung; v++ {
 		n += lifeForced(enc, "shutdownHeld", v)
 		n += lifeForced(enc, "constructHeld", v)
 	}
-	for i := 0; i < *traces; i++ {
+	for i := 0; i < *traces && !xHung; i++ {
 		if i%3 == 2 {
 			old := runtime.GOMAXPROCS(1)
 			n += lifeFree(enc, rd, "free1")
@@ -195,7 +195,7 @@ func (r *lifeRun) finish(enc *json.Encoder, sc string, hung []any) int {
 	_ = sched.Quiesce(2 * time.Second)
 	r.wmu.Lock()
 	// a Wait on a triggered group must have returned
-	deadline := time.Now().Add(3 * time.Second)
+	deadline := time.Now().Add(xJoinWait)
 	for k, wg := range r.wgs {
 		for wg.WasTriggered() && !r.waited[k].Load() && time.Now().Before(deadline) {
 			time.Sleep(200 * time.Microsecond)
@@ -226,6 +226,7 @@ func (r *lifeRun) finish(enc *json.Encoder, sc string, hung []any) int {
 			sort.Ints(p)
 			ws = append(ws, []any{wg.WasTriggered(), core.Seq(p)})
 		}
+		xHung = xHung || len(hung) > 0
 		return core.Ev{"op": "final", "t": ts, "w": ws, "hung": hung}
 	})
 	r.wmu.Unlock()
@@ -311,7 +312,7 @@ func lifeFree(enc *json.Encoder, rd *rand.Rand, sc string) int {
 			}
 		})
 	}
-	hung := g.join(8 * time.Second)
+	hung := g.join(xJoinWait)
 	return r.finish(enc, sc, hung)
 }
 
@@ -328,7 +329,7 @@ func lifeForced(enc *json.Encoder, sc string, variant int) int {
 	gate := sched.NewGate()
 	g := newXgroup()
 	parked := func() bool {
-		deadline := time.Now().Add(5 * time.Second)
+		deadline := time.Now().Add(xJoinWait)
 		for gate.Parked("g") == 0 {
 			if time.Now().After(deadline) {
 				return false
@@ -374,7 +375,7 @@ func lifeForced(enc *json.Encoder, sc string, variant int) int {
 		r.read(1)
 		gate.ReleaseAll()
 	}
-	hung := g.join(8 * time.Second)
+	hung := g.join(xJoinWait)
 	if !ok {
 		hung = append(hung, "gate-never-reached")
 	}
